@@ -233,6 +233,7 @@ Section Ops.
         | VBool b => RTo [] (Some (KBool b, w))
         | VNone => RTo [] (Some (KStr "NaN", w))
         | VNum x => if nisnan x then RTo [] (Some (KStr "NaN", w)) else RErr
+        | VVec _ => RErr
         end
     | KLabel _ | KULabel _ | KIndex | KBranch =>
         RTo (map (fun _ => Some w) (seq 0 n)) None
@@ -325,6 +326,7 @@ Section Ops.
     | LCount _, LCount _ => true
     | LSum, LSum | LAverage, LAverage | LDeviate, LDeviate | LMin, LMin | LMax, LMax => true
     | LBag RS, LBag RS | LBag RN, LBag RN => true
+    | LBag (RV n), LBag (RV m) => Nat.eqb n m
     | _, _ => false
     end.
 
